@@ -72,10 +72,20 @@ Lemma te_S : forall k, te (S k) = estep k (tst (S k)) (te k). Proof. reflexivity
 Lemma th_S : forall k, th (S k) = hstep k (tst (S k)) (th k). Proof. reflexivity. Qed.
 
 (* ---- what "iteration finished" means on disk ---- *)
+Definition files_ok (d : disk) (s : Model.slot) (st : St) : Prop :=
+  match snd st with
+  | [] =>            (* MAP iteration: SampleList([mean]) -- one sample file holding the position, no mean file *)
+      lookup (Mean s) d = None /\
+      lookup (Sample s 0) d = Some (Valid (PPos (fst st))) /\
+      lookup (Sample s 1) d = None
+  | _ :: _ =>
+      lookup (Mean s) d = Some (Valid (PMean (fst st))) /\
+      (forall k r, nth_error (snd st) k = Some r -> lookup (Sample s k) d = Some (Valid (PRes r))) /\
+      lookup (Sample s (length (snd st))) d = None
+  end.
+
 Definition slot_complete (d : disk) (s : Model.slot) (st : St) (e : EE) (h : HH) : Prop :=
-  lookup (Mean s) d = Some (Valid (PMean (fst st))) /\
-  (forall k r, nth_error (snd st) k = Some r -> lookup (Sample s k) d = Some (Valid (PRes r))) /\
-  lookup (Sample s (length (snd st))) d = None /\
+  files_ok d s st /\
   lookup (EHist s) d = Some (Valid (PE e)) /\
   lookup (MHist s) d = Some (Valid (PH h)).
 
@@ -190,19 +200,68 @@ Qed.
 Lemma slot_refl : forall s, slot_eqb s s = true.
 Proof. intros. now apply slot_eqb_eq. Qed.
 
-Lemma save_list_eq : forall s (st : St),
-  save_list s st = [Unlink (Sample s (length (snd st)))] ++ save_samples s 0 (snd st) ++ save_file (Mean s) (PMean (fst st)).
-Proof. reflexivity. Qed.
-
 Lemma touches_unlink : forall g f, touches [Unlink g] f = fname_eqb f g.
 Proof. intros. unfold ProofsBase.touches. simpl. apply orb_false_r. Qed.
 
+Definition is_sample_file (s : Model.slot) (f : fname) : bool :=
+  match f with Sample t _ | Mean t => slot_eqb s t | _ => false end.
+
+Lemma save_list_nil : forall s (st : St), snd st = [] ->
+  save_list s st = [Unlink (Sample s 1)] ++ [Unlink (Mean s)] ++ save_file (Sample s 0) (PPos (fst st)).
+Proof. intros s st H. unfold Model.save_list. now rewrite H. Qed.
+
+Lemma save_list_cons : forall s (st : St), snd st <> [] ->
+  save_list s st = [Unlink (Sample s (length (snd st)))] ++ save_samples s 0 (snd st) ++ save_file (Mean s) (PMean (fst st)).
+Proof. intros s st H. unfold Model.save_list. destruct (snd st); [contradiction | reflexivity]. Qed.
+
+(* sl.save touches sample and mean files of its slot only *)
+Lemma touches_save_list : forall s st f, is_sample_file s f = false -> touches (save_list s st) f = false.
+Proof.
+  intros s st f Hs.
+  assert (N : forall g, is_sample_file s g = true -> fname_eqb f g = false).
+  { intros g Hg. destruct (fname_eqb f g) eqn:Eq; [ | reflexivity]. apply fname_eqb_eq in Eq. subst. congruence. }
+  destruct (snd st) eqn:Es.
+  - rewrite save_list_nil by exact Es. rewrite !touches_app, !touches_unlink, touches_save_file.
+    rewrite !N by (simpl; apply slot_refl). reflexivity.
+  - rewrite save_list_cons by (rewrite Es; discriminate). rewrite !touches_app, touches_unlink, touches_save_file.
+    rewrite !N by (simpl; apply slot_refl).
+    destruct (touches (save_samples s 0 (snd st)) f) eqn:Ht; [ | reflexivity].
+    destruct (touches_save_samples _ _ _ _ Ht) as (k & -> & _). simpl in Hs. rewrite slot_refl in Hs. discriminate.
+Qed.
+
 Lemma touches_save_list_out : forall s st f, in_slot s f = false -> touches (save_list s st) f = false.
 Proof.
-  intros s st f Hs. rewrite save_list_eq, !touches_app, touches_unlink, touches_save_file.
-  rewrite touches_save_samples_out by exact Hs.
-  rewrite (in_slot_false_neq s f (Sample s (length (snd st))) Hs) by (simpl; apply slot_refl).
-  rewrite (in_slot_false_neq s f (Mean s) Hs) by (simpl; apply slot_refl). reflexivity.
+  intros s st f Hs. apply touches_save_list. destruct f; simpl in *; try reflexivity; exact Hs.
+Qed.
+
+Lemma files_ok_ext : forall (d d' : disk) s st,
+  (forall f, is_sample_file s f = true -> lookup f d' = lookup f d) -> files_ok d s st -> files_ok d' s st.
+Proof.
+  intros d d' s st Hf. unfold files_ok. destruct (snd st).
+  - intros (H1 & H2 & H3). rewrite !Hf by (simpl; apply slot_refl). auto.
+  - intros (H1 & H2 & H3). rewrite !Hf by (simpl; apply slot_refl). repeat split; auto.
+    intros k r0 Hn. rewrite Hf by (simpl; apply slot_refl). now apply H2.
+Qed.
+
+(* after sl.save the sample files hold exactly the state in memory *)
+Lemma save_list_files_ok : forall s st (d : disk), files_ok (run_ops (save_list s st) d) s st.
+Proof.
+  intros s st d. unfold files_ok. destruct (snd st) eqn:Es.
+  - rewrite save_list_nil by exact Es. rewrite !run_ops_app. repeat split.
+    + rewrite run_ops_frame by (rewrite touches_save_file; reflexivity).
+      unfold Model.run_ops. cbn [fold_left Model.exec]. apply lookup_del_same.
+    + apply save_file_lookup.
+    + rewrite run_ops_frame by (rewrite touches_save_file; simpl; apply andb_false_r).
+      rewrite run_ops_frame by (rewrite touches_unlink; reflexivity).
+      unfold Model.run_ops. cbn [fold_left Model.exec]. apply lookup_del_same.
+  - assert (Hne : snd st <> []) by (rewrite Es; discriminate).
+    rewrite save_list_cons by exact Hne. rewrite <- Es. rewrite !run_ops_app. repeat split.
+    + apply save_file_lookup.
+    + intros k r0 Hn. rewrite run_ops_frame by (rewrite touches_save_file; reflexivity).
+      change k with (0 + k). now apply save_samples_lookup.
+    + rewrite run_ops_frame by (rewrite touches_save_file; reflexivity).
+      rewrite run_ops_frame by (apply touches_save_samples_idx; lia).
+      unfold Model.run_ops. cbn [fold_left Model.exec]. apply lookup_del_same.
 Qed.
 
 Lemma touches_before_read_out : forall i st' eh' f, body_files (slot i) f = false ->
@@ -217,11 +276,8 @@ Qed.
 
 Lemma touches_before_read_mhist : forall i st' eh' s, touches (before_read i st' eh') (MHist s) = false.
 Proof.
-  intros. unfold before_read. rewrite save_list_eq.
-  rewrite !touches_app, touches_dump, touches_append_log, touches_unlink, touches_save_file.
-  cbn [fname_eqb orb].
-  destruct (touches (save_samples (slot i) 0 (snd st')) (MHist s)) eqn:Ht; [ | reflexivity].
-  destruct (touches_save_samples _ _ _ _ Ht) as (k & Hk & _). discriminate.
+  intros. unfold before_read.
+  rewrite !touches_app, touches_dump, touches_append_log, touches_save_list by reflexivity. reflexivity.
 Qed.
 
 Lemma touches_body_out : forall i st' eh' rd h' f, reads rd -> body_files (slot i) f = false ->
@@ -258,21 +314,10 @@ Proof.
   { intros f x H1 H2 H3 H4. apply run_ops_frame.
     rewrite !touches_app, tB, tC, tD, tF, (Hr f), H1, H2, H3, H4. reflexivity. }
   rewrite run_ops_app. set (dA := run_ops A d).
-  repeat split.
-  - (* mean *)
-    rewrite rest_frame by reflexivity. unfold dA, A. rewrite save_list_eq, app_assoc.
-    rewrite run_ops_app. apply save_file_lookup.
-  - (* samples *)
-    intros k r Hn. rewrite rest_frame by reflexivity. unfold dA, A. rewrite save_list_eq.
-    rewrite run_ops_app, run_ops_app.
-    rewrite run_ops_frame by (rewrite touches_save_file; reflexivity).
-    change k with (0 + k). now apply save_samples_lookup.
-  - (* no next sample *)
-    rewrite rest_frame by reflexivity. unfold dA, A. rewrite save_list_eq.
-    rewrite run_ops_app, run_ops_app.
-    rewrite run_ops_frame by (rewrite touches_save_file; reflexivity).
-    rewrite run_ops_frame by (apply touches_save_samples_idx; lia).
-    unfold Model.run_ops. cbn [fold_left Model.exec]. apply lookup_del_same.
+  split; [split; [ | split] | ].
+  - (* sample files *)
+    apply (files_ok_ext dA); [ | apply save_list_files_ok].
+    intros f Hs. apply rest_frame; destruct f; simpl in Hs; try discriminate; reflexivity.
   - (* energy history *)
     rewrite run_ops_app.
     rewrite run_ops_frame by (rewrite !touches_app, tC, tD, tF, (Hr _); reflexivity).
@@ -286,11 +331,7 @@ Proof.
 Qed.
 
 (* ---- preservation of [good] ---- *)
-Hypothesis gstep_nonempty : forall i sd st, snd (gstep i sd st) <> [].
 Hypothesis fresh0 : fresh 0 = true.
-
-Lemma step_nonempty : forall i st, snd (step i st) <> [].
-Proof. intros. apply gstep_nonempty. Qed.
 
 (* ---- the seed schedule prepared by every run is [sched] ---- *)
 Lemma set_nth_length : forall l i x, length (set_nth i x l) = length l.
@@ -351,9 +392,9 @@ Lemma slot_complete_ext : forall (d d' : disk) s st e h,
   (forall f, in_slot s f = true -> lookup f d' = lookup f d) ->
   slot_complete d s st e h -> slot_complete d' s st e h.
 Proof.
-  intros d d' s st e h Hf (H1 & H2 & H3 & H4 & H5).
+  intros d d' s st e h Hf (H1 & H4 & H5).
   repeat split; try (rewrite Hf by (simpl; apply slot_refl); assumption).
-  intros k r Hn. rewrite Hf by (simpl; apply slot_refl). now apply H2.
+  eapply files_ok_ext; [ | exact H1]. intros f Hs. apply Hf. destruct f; simpl in *; try discriminate; exact Hs.
 Qed.
 
 Lemma good_ext : forall n (d d' : disk),
@@ -363,7 +404,7 @@ Lemma good_ext : forall n (d d' : disk),
   good n d -> good n d'.
 Proof.
   intros n d d' Hm Hf Hg. unfold good in *. rewrite Hm.
-  destruct (lookup Marker d) as [[ | p | [j | | | | | | ]] | ] eqn:Em; try exact Hg.
+  destruct (lookup Marker d) as [[ | p | [j | | | | | | | ]] | ] eqn:Em; try exact Hg.
   destruct Hg as [Hj [Hc Hr]]. split; [exact Hj | ]. split.
   - eapply slot_complete_ext; [ | exact Hc]. intros f Hs. apply (Hf j); [reflexivity | now left].
   - rewrite (Hf j RandomState) by (try reflexivity; now right). exact Hr.
@@ -377,11 +418,14 @@ Proof.
   assert (N : forall f, lookup f d = None -> lookup f (settle lost d) = None)
     by (intros f Hl; rewrite lookup_settle, Hl; reflexivity).
   unfold good in *.
-  destruct (lookup Marker d) as [[ | p | [j | | | | | | ]] | ] eqn:Em; try contradiction.
-  - rewrite (V _ _ Em). destruct Hg as [Hj [(H1 & H2 & H3 & H4 & H5) Hr]].
+  destruct (lookup Marker d) as [[ | p | [j | | | | | | | ]] | ] eqn:Em; try contradiction.
+  - rewrite (V _ _ Em). destruct Hg as [Hj [(H1 & H4 & H5) Hr]].
     split; [exact Hj | ]. split; [ | now apply V].
-    repeat split; try (now apply V); try (now apply N).
-    intros k r Hn. apply V. now apply H2.
+    repeat split; try (now apply V).
+    unfold files_ok in *. destruct (snd (tst (S j))).
+    + destruct H1 as (A1 & A2 & A3). repeat split; try (now apply V); now apply N.
+    + destruct H1 as (A1 & A2 & A3). repeat split; try (now apply V); try (now apply N).
+      intros k r0 Hn. apply V. now apply A2.
   - rewrite (N _ Em). exact I.
 Qed.
 
@@ -515,7 +559,7 @@ Proof.
     as (Hm & Hc & Hg).
   { intros f Hf. apply run_ops_frame. rewrite touches_append_log. exact Hf. }
   split; [exact Hg | ]. split; [exact Hm | ].
-  destruct Hc as [(H1 & H2 & H3 & H4 & H5) H6]. split; assumption.
+  destruct Hc as [(H1 & H4 & H5) H6]. split; assumption.
 Qed.
 
 (* ---- the loop ---- *)
@@ -620,34 +664,59 @@ Proof.
     + specialize (Hl 0 r eq_refl). now rewrite Nat.add_0_r in Hl.
 Qed.
 
+Lemma load_positions_one : forall s (d : disk) m, lookup (Sample s 0) d = Some (Valid (PPos m)) ->
+  load_positions MM RR EE HH s 0 1 d = ([OpenR (Sample s 0); CloseR (Sample s 0)] ++ [], Some [m]).
+Proof.
+  intros s d m Hl. cbn [Model.load_positions]. rewrite (load_valid _ _ d Hl). reflexivity.
+Qed.
+
+Lemma resume_tail_ok : forall n j pre (st : St) (d : disk), reads pre ->
+  lookup RandomState d = Some (Valid PRng) -> lookup (EHist (slot j)) d = Some (Valid (PE (te (S j)))) ->
+  exists ops e, reads ops /\
+    resume_tail MM RR EE HH e0 n j (slot j) pre st d = (ops, Some (st, e, S j)) /\ (S j <> n -> e = te (S j)).
+Proof.
+  intros n j pre st d Hpre Hr H4. unfold Model.resume_tail.
+  destruct (Nat.eqb (S j) n) eqn:En.
+  - exists pre, e0. split; [exact Hpre | ]. split; [reflexivity | ].
+    intros Hne. apply Nat.eqb_eq in En. contradiction.
+  - rewrite (load_valid RandomState PRng d Hr). cbn [fst snd].
+    rewrite (load_valid _ _ d H4). cbn [fst snd].
+    eexists. exists (te (S j)). split; [ | split; reflexivity].
+    repeat apply reads_app; try apply reads_openclose; exact Hpre.
+Qed.
+
 Lemma resume_state_ok : forall n j (d : disk), lookup Marker d = Some (Valid (PInt j)) -> complete d j ->
   exists ops e, reads ops /\ resume_state n d = (ops, Some (tst (S j), e, S j)) /\ (S j <> n -> e = te (S j)).
 Proof.
-  intros n j d Hm [(H1 & H2 & H3 & H4 & H5) Hr].
+  intros n j d Hm [(Hf & H4 & H5) Hr].
   unfold Model.resume_state. rewrite (load_valid Marker (PInt j) d Hm). cbn [fst snd].
-  unfold Model.isfile. rewrite H1. rewrite (load_valid _ _ d H1). cbn [fst snd].
-  assert (Hcnt : count_from MM RR EE HH (slot j) 0 (length d) d = length (snd (tst (S j)))).
-  { apply count_from_exact.
-    - intros k Hk. destruct (nth_error (snd (tst (S j))) k) eqn:En.
-      + rewrite (H2 k r En). discriminate.
-      + apply nth_error_None in En. lia.
-    - exact H3.
-    - apply (present_count (slot j)). intros k Hk. destruct (nth_error (snd (tst (S j))) k) eqn:En.
-      + rewrite (H2 k r En). discriminate.
-      + apply nth_error_None in En. lia. }
-  rewrite Hcnt.
-  destruct (load_samples_ok (slot j) d (snd (tst (S j))) 0) as (lops & Hlr & Hle); [intros i r Hn; now apply H2 | ].
-  rewrite Hle. cbn [fst snd].
-  destruct (length (snd (tst (S j)))) eqn:Elen.
-  { exfalso. apply (step_nonempty j (tst j)). rewrite <- tst_S. now apply length_zero_iff_nil. }
+  unfold Model.isfile. unfold files_ok in Hf.
   assert (Hst : (fst (tst (S j)), snd (tst (S j))) = tst (S j)) by (now destruct (tst (S j))).
-  destruct (Nat.eqb (S j) n) eqn:En.
-  - eexists. exists e0. split; [ | split; [rewrite Hst; reflexivity | ]].
-    + repeat apply reads_app; try apply reads_openclose; exact Hlr.
-    + intros Hne. apply Nat.eqb_eq in En. contradiction.
-  - rewrite (load_valid RandomState PRng d Hr). cbn [fst snd].
-    rewrite (load_valid _ _ d H4). cbn [fst snd].
-    eexists. exists (te (S j)). split; [ | split; [rewrite Hst; reflexivity | reflexivity]].
+  destruct (snd (tst (S j))) as [ | r0 rs] eqn:Es.
+  - (* the last finished iteration was a MAP iteration *)
+    destruct Hf as (H1 & H2 & H3). rewrite H1.
+    assert (Hcnt : count_from MM RR EE HH (slot j) 0 (length d) d = 1).
+    { apply count_from_exact.
+      - intros k Hk. replace k with 0 by lia. rewrite H2. discriminate.
+      - exact H3.
+      - apply (present_count (slot j)). intros k Hk. replace k with 0 by lia. rewrite H2. discriminate. }
+    rewrite Hcnt, (load_positions_one _ _ _ H2). cbn [fst snd]. rewrite Hst.
+    apply resume_tail_ok; [ | exact Hr | exact H4].
+    repeat apply reads_app; try apply reads_openclose; apply reads_nil.
+  - destruct Hf as (H1 & H2 & H3). rewrite H1. rewrite (load_valid _ _ d H1). cbn [fst snd].
+    assert (Hcnt : count_from MM RR EE HH (slot j) 0 (length d) d = length (r0 :: rs)).
+    { apply count_from_exact.
+      - intros k Hk. destruct (nth_error (r0 :: rs) k) eqn:En.
+        + rewrite (H2 k r En). discriminate.
+        + apply nth_error_None in En. lia.
+      - exact H3.
+      - apply (present_count (slot j)). intros k Hk. destruct (nth_error (r0 :: rs) k) eqn:En.
+        + rewrite (H2 k r En). discriminate.
+        + apply nth_error_None in En. lia. }
+    rewrite Hcnt.
+    destruct (load_samples_ok (slot j) d (r0 :: rs) 0) as (lops & Hlr & Hle); [intros i r Hn; now apply H2 | ].
+    rewrite Hle. cbn [fst snd length]. rewrite Hst.
+    apply resume_tail_ok; [ | exact Hr | exact H4].
     repeat apply reads_app; try apply reads_openclose; exact Hlr.
 Qed.
 
@@ -672,13 +741,13 @@ Proof.
   destruct (r && isfile Marker d) eqn:Eb.
   - apply andb_true_iff in Eb. destruct Eb as [-> Ef]. unfold Model.isfile in Ef.
     assert (Hg' := Hg). unfold good in Hg'.
-    destruct (lookup Marker d) as [[ | p | [j | | | | | | ]] | ] eqn:Em; try contradiction; try discriminate.
+    destruct (lookup Marker d) as [[ | p | [j | | | | | | | ]] | ] eqn:Em; try contradiction; try discriminate.
     destruct Hg' as [Hj Hc].
     destruct (resume_state_ok n j d Em Hc) as (rops & e & Hreads & Hrs & He). rewrite Hrs. cbn [fst snd].
     set (o := prelude MM RR EE HH ++ rops).
     assert (Ho : reads o) by (apply reads_app; [apply reads_prelude | exact Hreads]).
     assert (Hsame : forall f, lookup f (run_ops o d) = lookup f d) by (intros; now apply reads_frame).
-    destruct Hc as [Hsc Hrng]. assert (Hmh := Hsc). destruct Hmh as (_ & _ & _ & _ & Hmh).
+    destruct Hc as [Hsc Hrng]. assert (Hmh := Hsc). destruct Hmh as (_ & _ & Hmh).
     destruct (Nat.eq_dec (S j) n) as [En | En].
     + subst n. rewrite Nat.eqb_refl. cbn [fst snd]. split; [reflexivity | ].
       intros k lost. apply (good_same (S j) d); [intros; now apply reads_crash | exact Hg].
